@@ -102,6 +102,12 @@ check("C10", "exploration", "simkernel+realproc",
       "Trusted: vlib/simkernel.py; 'not refused at any moment' is sampled every 5 ms in the real runs, the exhaustive argument is the simulated master never closing a listener; one known finding (TERM lost in the boot window followed by TTIN) is listed.",
       "DESIGN.md section 3, C10")
 
+check("C20", "exploration", "simkernel+realproc",
+      "exhaustive enumeration on the real kernel as root: (a) every (user spelling, group spelling, initgroups) cell executes the real set_owner_process in a forked child; (c) every (identity configuration, worker class, history of start / worker killed / HUP / HUP that introduces the identity / USR2) cell on real servers, observed through /proc and from inside the application",
+      "60 credential cells: (r,e,s)uid and (r,e,s)gid must equal the configured ids, supplementary groups the user's groups with initgroups. 50 (thorough 100) server cells: every worker of every generation must carry exactly the configured ids in /proc/<pid>/status, the application must have been imported and must handle requests with those ids, the master must stay root, the unix socket must be owned by the configured ids, and the heartbeat must keep working (no WORKER TIMEOUT, stable pids).",
+      "Trusted: the sandbox runs as root with users www-data/nobody and groups nogroup/daemon present; without initgroups supplementary groups are not judged; preload_app is outside the property; real-process anomalies count only if they reproduce serially.",
+      "DESIGN.md section 3, C20")
+
 ALL = ["C%02d" % i for i in range(1, 21)]
 for pid in ALL:
     if pid not in CHECKS:
